@@ -63,7 +63,7 @@ def do_call(ex, node, st):
             return dict_method(ex, recv, f, node, st)
         if isinstance(recv.kind, (KFloat, KReal)) and f.attr == "is_integer":
             nan, x = to_float(recv)
-            return vbool(and_(not_(nan), z3.ToReal(z3.ToInt(x)) == x))
+            return vbool(and_(not_(nan), z3.ToReal(floor_of(ex, x)) == x))
         if isinstance(recv.kind, KRef):
             from .extract import mangle
             fi = ex.find_method(recv.kind.cls, mangle(f.attr, ex.fi.cls))
@@ -197,6 +197,27 @@ def dict_method(ex, d, f, node, st):
     raise OutOfSubset("dict method " + name)
 
 
+def floor_of(ex, x):
+    """floor of a real term.  In code (not inside contract clauses) the floor is a named integer with its
+    two defining linear inequalities, which keeps z3 out of to_int + non-linear arithmetic."""
+    if z3.is_rational_value(x) or (ex.spec_mode and ex.bound):
+        return z3.ToInt(x)
+    cache = ex.ctx.__dict__.setdefault("floor_cache", {})
+    key = x.get_id()
+    if key in cache:
+        return cache[key][0]
+    f = z3.Int(uid("floor"))
+    ex.ctx.hyps.append(z3.And(z3.ToReal(f) <= x, x < z3.ToReal(f) + 1))
+    cache[key] = (f, x)      # keep x alive so that its id is not reused
+    return f
+
+
+def trunc_of(ex, x):
+    if z3.is_rational_value(x) or (ex.spec_mode and ex.bound):
+        return real_trunc(x)
+    return if_(x >= 0, floor_of(ex, x), -floor_of(ex, -x))
+
+
 def call_builtin(ex, name, node, st):
     reg = ex.ctx.reg
     if name in reg.builtins:
@@ -240,7 +261,7 @@ def call_builtin(ex, name, node, st):
         if isinstance(v.kind, (KFloat, KReal)):
             nan, x = to_float(v)
             chk("ValueError-int-of-nan", not_(nan))
-            return vint(real_trunc(x))
+            return vint(trunc_of(ex, x))
         raise OutOfSubset("int(%r)" % (v.kind,))
     if name == "float":
         v = args[0]
@@ -257,11 +278,11 @@ def call_builtin(ex, name, node, st):
     if name == "math.floor":
         nan, x = to_float(args[0])
         chk("ValueError-floor-of-nan", not_(nan))
-        return vint(real_floor(x))
+        return vint(floor_of(ex, x))
     if name == "math.ceil":
         nan, x = to_float(args[0])
         chk("ValueError-ceil-of-nan", not_(nan))
-        return vint(-real_floor(-x))
+        return vint(-floor_of(ex, -x))
     if name in ("math.sqrt", "np.sqrt"):
         nan, x = to_float(args[0])
         chk("ValueError-sqrt-negative", or_(nan, x >= 0))
